@@ -404,6 +404,7 @@ def get_tokens(s, tolerant, pymode=True, tokenize_ioredirects=True, is_subproc=F
             tolerant,
             tokenize_ioredirects,
             is_subproc=is_subproc,
+            encoding="utf-8",
         ),
         "tolerant": tolerant,
     }
